@@ -726,3 +726,15 @@ func Run(file string, workers int, budget time.Duration, walks, depth int, seed 
 	}
 	return res, nil
 }
+
+// BuildCfg converts a model configuration into real sub-distributors (used by the chain-level harness).
+func BuildCfg(P int64, ids map[string]string, c any) []dtypes.SubDistributor {
+	s := &state{P: P, ids: ids}
+	return s.buildCfg(c)
+}
+
+// KeyOf maps a real state / account to the model key.
+func KeyOf(rids map[string]string, a *dtypes.Account, burn bool) string {
+	s := &state{rids: rids}
+	return s.keyOf(a, burn)
+}
